@@ -6,7 +6,8 @@ SLOT=/tmp/vc/$1; PATCH=$2; TIER=$3; shift 3
 if [ "$PATCH" = "--rm" ]; then git -C /repo worktree remove --force $SLOT/repo 2>/dev/null; rm -rf $SLOT; exit 0; fi
 mkdir -p $SLOT
 [ -d $SLOT/repo ] || git -C /repo worktree add --detach $SLOT/repo HEAD >/dev/null 2>&1 || exit 2
-rsync -a --delete --exclude target --exclude work --exclude replays --exclude .git --exclude __pycache__ /verif/ $SLOT/verif/
+# the COMMITTED state of /verif (edits in progress in the working tree do not leak into a run)
+mkdir -p $SLOT/verif.new && git -C /verif archive HEAD | tar -x -C $SLOT/verif.new && rsync -a --delete --exclude target --exclude work --exclude replays --exclude __pycache__ $SLOT/verif.new/ $SLOT/verif/ && rm -rf $SLOT/verif.new
 sed -i "s#\"/repo/#\"$SLOT/repo/#" $SLOT/verif/harness/driver/Cargo.toml
 git -C $SLOT/repo checkout -q --detach $(git -C /repo rev-parse HEAD) 2>/dev/null
 git -C $SLOT/repo checkout -- . ; git -C $SLOT/repo clean -fdq
